@@ -23,7 +23,7 @@ use vsched::harness::TProg;
 
 
 class TProg:
-    def __init__(self, id, ref, mac, rows=((0,),), sub=(), panics=(), depths=(), callers=("main",), check_threads=False, pbound=None, cap=2000000, maxd=4, meta=None, names=()):
+    def __init__(self, id, ref, mac, rows=((0,),), sub=(), panics=(), depths=(), callers=("main",), check_threads=False, pbound=None, cap=400000, maxd=4, meta=None, names=()):
         self.names = list(names)
         self.id = id
         self.ref = ref
